@@ -64,6 +64,18 @@ let handle op args = match op, args with
     let fuel = nat_of_int (List.length bl + 2) in
     let maxfin = if mf = "-" then n_of_int 1000000000 else n_of_int (int_of_string mf) in
     show_tree (finalizeBlocks fuel t (n_of_int (int_of_string mr)) (n_of_int (int_of_string pr)) maxfin)
+  | "spfin", [vmr; vpr; refs; bmr; bpr; vchain; vtips; vblocks; bchain; btips; bblocks] ->
+    (* C09 cascade: VbkBlockTree::finalizeBlocks = sp_finalize (coq/Store/StackDefs.v) on the observed VBK and BTC trees *)
+    let tree chain tips blocks =
+      let bl = List.map parse_block (List.filter (fun x -> x <> "") (String.split_on_char ';' blocks)) in
+      { t_blocks = bl; t_chain = nl chain; t_tips = nl tips; t_fpidx = [] } in
+    let v = tree vchain vtips vblocks and b = tree bchain btips bblocks in
+    let fuel = nat_of_int (List.length v.t_blocks + List.length b.t_blocks + 2) in
+    let ni x = n_of_int (int_of_string x) in
+    let p = { sp_alt_maxreorg = N0; sp_alt_preserve = N0; sp_vbk_maxreorg = ni vmr; sp_vbk_preserve = ni vpr;
+              sp_btc_maxreorg = ni bmr; sp_btc_preserve = ni bpr } in
+    let (v', b') = sp_finalize fuel p (nl refs) v b in
+    show_tree v' ^ " | " ^ show_tree b'
   | "minit", [] -> cur := Some (init, storage0); "ok"
   | "mop", a ->
     (match !cur with
